@@ -156,6 +156,93 @@ def disagree_many(cands):
     return [run_impl(c) != m for c, m in zip(cands, ms)]
 
 
+def gen_two(rng, n):
+    """Histories over two result cursors obtained from conn.execute() (each execute returns a new result)."""
+    ops = [(0, ('execute', rng.choice([2, 3, 4]))), (1, ('execute', rng.choice([1, 3, 5])))]
+    for _ in range(n):
+        k = rng.randrange(2)
+        r = rng.random()
+        if r < 0.3:
+            ops.append((k, ('fetchone',)))
+        elif r < 0.55:
+            ops.append((k, ('fetchmany', rng.choice([None, 0, 1, 2]))))
+        elif r < 0.65:
+            ops.append((k, ('fetchall',)))
+        elif r < 0.75:
+            ops.append((k, ('rowcount',)))
+        elif r < 0.85:
+            ops.append((k, ('rownumber',)))
+        elif r < 0.9:
+            ops.append((k, ('hasdesc',)))
+        else:
+            ops.append((k, ('execute', rng.choice([0, 2, 4]))))
+    return ops
+
+
+def run_two_impl(ops):
+    table = impl.make_table('t', [('x', int)], [(i,) for i in range(8)])
+    conn = impl.connection({'t': table})
+    curs = [None, None]
+    base = [0, 100]
+    outs = []
+    for k, o in ops:
+        try:
+            if o[0] == 'execute':
+                base[k] += 10
+                curs[k] = conn.execute(f'SELECT x + {base[k]} AS x FROM #t WHERE x < {o[1]}')
+                r = [0]
+            elif o[0] == 'fetchone':
+                v = curs[k].fetchone()
+                r = [0] if v is None else [1, v[0]]
+            elif o[0] == 'fetchmany':
+                v = curs[k].fetchmany() if o[1] is None else curs[k].fetchmany(o[1])
+                r = [2, [x[0] for x in v]]
+            elif o[0] == 'fetchall':
+                r = [2, [x[0] for x in curs[k].fetchall()]]
+            elif o[0] == 'rowcount':
+                r = [3, curs[k].rowcount]
+            elif o[0] == 'rownumber':
+                r = [3, curs[k].rownumber]
+            else:
+                r = [5, 0 if curs[k].description is None else 1]
+        except Exception as e:  # noqa: BLE001
+            r = ['exception', type(e).__name__]
+        outs.append(r)
+    return outs
+
+
+def two_model_exprs(ops):
+    """Each conn.execute() result is a fresh cursor: the model runs one independent cursor per result."""
+    per = {0: [], 1: []}
+    base = [0, 100]
+    for k, o in ops:
+        if o[0] == 'execute':
+            base[k] += 10
+            per[k].append('Execute ' + clist([cZ(base[k] + i) for i in range(min(o[1], 8))]))
+        elif o[0] == 'fetchone':
+            per[k].append('FetchOne')
+        elif o[0] == 'fetchmany':
+            per[k].append('FetchMany ' + copt(o[1], cZ))
+        elif o[0] == 'fetchall':
+            per[k].append('FetchAll')
+        elif o[0] == 'rowcount':
+            per[k].append('RowCount')
+        elif o[0] == 'rownumber':
+            per[k].append('RowNumber')
+        else:
+            per[k].append('HasDescription')
+    return ['run_out ' + clist(per[0]), 'run_out ' + clist(per[1])]
+
+
+def merge_two(ops, m0, m1):
+    it = [iter(m0), iter(m1)]
+    return [next(it[k]) for k, _ in ops]
+
+
+def show_two(ops):
+    return ';'.join(f'r{k}.' + o[0] + ('' if len(o) == 1 else f'({o[1]})') for k, o in ops)
+
+
 def column_cases():
     """Column as a 7-item sequence: index, slice, len, iteration, equality."""
     conn = impl.connection({'t': impl.make_table('t', [('x', int), ('y', str)], [(1, 'a')])})
@@ -264,6 +351,19 @@ def run(tier, rng):
                 signature=sig))
             if len(seen_sig) >= 3:
                 break
+    # two live conn.execute() results
+    two = [gen_two(rng, rng.randint(3, 10)) for _ in range(300 if tier == 'quick' else 3000)]
+    two_impl = core.pmap(run_two_impl, two)
+    flat = [e for t in two for e in two_model_exprs(t)]
+    tm = core.coq_eval('c10two', ['Model.Cursor'], flat)
+    for idx, (t, i) in enumerate(zip(two, two_impl)):
+        m = merge_two(t, tm[2 * idx], tm[2 * idx + 1])
+        if i != m and len(seen_sig) < 5:
+            sig = 'two-results:' + show_two(t)
+            seen_sig.add(sig)
+            violations.append(core.Violation('two-live-results', f'two conn.execute() results used alternately {show_two(t)}: '
+                                             f'implementation {i} but independent cursors give {m}',
+                                             {'two': t, 'impl': i, 'model': m}, signature=sig))
     ncol, bad, direct = column_cases()
     for lab, i, m in bad[:1]:
         violations.append(core.Violation('column-sequence', f'{lab}: implementation {i}, 7-item sequence model {m}',
@@ -273,7 +373,7 @@ def run(tier, rng):
         violations.append(core.Violation('column-sequence', f'{lab}: got {got}, expected {want}',
                                          {'expr': lab, 'got': got, 'expected': want}, signature='column:' + lab))
     cov = {
-        'evaluations': len(hist) + ncol,
+        'evaluations': len(hist) + ncol + len(two), 'two_live_result_histories': len(two),
         'distinct_nontrivial': nontrivial,
         'rule': 'random call histories (one PRNG) over execute/fetchone/fetchmany(n|default)/fetchall/arraysize/'
                 'iter/next/rowcount/rownumber/description, plus (thorough) every history of length<=4 over an '
